@@ -123,6 +123,11 @@ func (c *MiscreantCipher) Unmarshal(value string, s interface{}) error {
 	if err != nil {
 		return err
 	}
+	// only the canonical encoding is accepted: the decoder skips line breaks and ignores
+	// trailing bits, which would let a re-encoded copy of a sealed value open as well
+	if base64.RawURLEncoding.EncodeToString(ciphertext) != value {
+		return fmt.Errorf("invalid input: non-canonical encoding")
+	}
 
 	// decrypt the bytes
 	plaintext, err := c.Decrypt(ciphertext)
